@@ -636,6 +636,7 @@ func loadConfig() {
 			panic(err)
 		}
 		applyConf(conf)
+		return
 	}
 	home := os.Getenv("HOME")
 	for _, path := range []string{
